@@ -190,6 +190,8 @@ def run(eng: Engine, ck: Check):
             heads = [n for n in c.nodes if n.kind in ('test', 'loop') and any(isinstance(a, (ast.While, ast.For)) and (a.test if isinstance(a, ast.While) else a) is n.ast
                                                                                 for a in ancestors(x))]
             p = c.find_path(heads or [c.entry], lambda n: n in xn, avoid=lambda n: n in tn)
+            if amount is not None and any(any(y is t for y in ast.walk(amount)) for t in takes):
+                p = None        # `io(await limiter.take_tokens())`: the argument is evaluated before the call
             ck.ob('R-C20-GATE', f, x, f'{q}: every chunk is moved only after take_tokens() in the same iteration, and its size is the granted token count',
                   bool(from_tokens) and p is None, f'size argument `{unparse(amount)}` (= `{unparse(src)}`); I/O reachable without taking tokens: {p is not None}',
                   construct=f'{q} chunk gated')
